@@ -506,6 +506,17 @@ def entryFromStat (ctimeNs mtimeNs dev ino mode uid gid size : Nat) (sha : Bytes
     mtime := .pair (mtimeNs / 1000000000) (mtimeNs % 1000000000),
     dev, ino, mode, uid, gid, size, sha, flags := 0, ext := 0 }
 
+/-- The `(st_*_ns // 1_000_000_000, st_*_ns % 1_000_000_000)` of `index_entry_from_stat`, on Python's
+unbounded integers (negative for timestamps before 1970): floor division and its non-negative remainder.
+(`Int` `/` and `%` are Euclidean in Lean 4, which for the positive divisor 10^9 is Python's `//`, `%`.) -/
+def timespecOfNs (ns : Int) : Int × Int := (ns / 1000000000, ns % 1000000000)
+
+/-- What truncation towards zero (C's `/`, `int(ns / 1e9)`) would give instead. -/
+def truncTimespecOfNs (ns : Int) : Int × Int := (Int.tdiv ns 1000000000, Int.tmod ns 1000000000)
+
+/-- The two 32-bit words `write_cache_time` stores for `(sec, nsec)`: `& 0xFFFFFFFF` on Python integers. -/
+def timeWords (t : Int × Int) : Nat × Nat := ((t.1 % 4294967296).toNat, (t.2 % 4294967296).toNat)
+
 /-! ## git's own v4 varint (varint.c), for the interoperability statement -/
 
 /-- C git `encode_varint`: big-endian base-128 groups with the "+1" offset encoding. -/
